@@ -79,14 +79,13 @@ def lastIsArr : Members → Bool
   | _ :: m :: r => lastIsArr (m :: r)
 
 mutual
-  /-- types as struct_members / union_decl build them: a flexible aggregate ends in an array member; and — region of
-      the defect "union without members" — no union (at any depth) has an empty member list -/
+  /-- types as struct_members / union_decl build them: a flexible aggregate ends in an array member -/
   def tyOK : Ty → Bool
     | .scalar _ _ => true
     | .array e _ => tyOK e
     | .inc e => tyOK e
     | .struct ms _ fl => msOK ms && (!fl || lastIsArr ms)
-    | .union ms _ fl => !ms.isEmpty && msOK ms && (!fl || lastIsArr ms)
+    | .union ms _ fl => msOK ms && (!fl || lastIsArr ms)
   def msOK : Members → Bool
     | [] => true
     | (_, t) :: r => tyOK t && msOK r
@@ -117,11 +116,17 @@ end
 def arrOK (elem : Ty) (init : Init) : Prop := ∃ cs, init = .arr cs ∧ shapeAll elem cs = true
 def stOK (ms : Members) (init : Init) : Prop := ∃ e cs, init = .struct e cs ∧ shapeMs ms cs = true
 def unOK (ms : Members) (init : Init) : Prop := ∃ e m cs, init = .union e m cs ∧ shapeMs ms cs = true
+/-- a struct node (`u = false`) or a union node (`u = true`): struct_initializer1/2 are also run on the node of a union
+    without members -/
+def aggOK : Bool → Members → Init → Prop
+  | false, ms, init => stOK ms init
+  | true, ms, init => unOK ms init
 
 abbrev Post (ty : Ty) (r : Init × List ITok) : Prop := shape ty r.1 = true ∧ toksOK r.2 = true
 abbrev PostA (elem : Ty) (r : Init × List ITok) : Prop := arrOK elem r.1 ∧ toksOK r.2 = true
 abbrev PostS (ms : Members) (r : Init × List ITok) : Prop := stOK ms r.1 ∧ toksOK r.2 = true
 abbrev PostU (ms : Members) (r : Init × List ITok) : Prop := unOK ms r.1 ∧ toksOK r.2 = true
+abbrev PostG (u : Bool) (ms : Members) (r : Init × List ITok) : Prop := aggOK u ms r.1 ∧ toksOK r.2 = true
 
 theorem shape_array_iff (e : Ty) (n : Nat) (init : Init) : shape (.array e n) init = true ↔ (init = .flex ∨ arrOK e init) := by
   cases init <;> simp [shape, arrOK]
@@ -238,7 +243,7 @@ mutual
     | .union ms _ f, fl, h => by
       simp only [tyOK, Bool.and_eq_true, Bool.or_eq_true, Bool.not_eq_true'] at h
       simp only [newInit, shape]
-      apply newInitMs_shape ms (fl && f) h.1.2
+      apply newInitMs_shape ms (fl && f) h.1
       intro hf
       simp only [Bool.and_eq_true] at hf
       rcases h.2 with h2 | h2
